@@ -98,13 +98,13 @@ def _encode_builtin_signed(buffer: _Buffer, type: SignedType, data: Any) -> None
 
 
 def _encode_builtin_float(buffer: _Buffer, type: FloatType, data: Any) -> None:
-    v = struct.pack("f", data)
-    buffer.push_bytes(list(v))
+    word = struct.unpack("<I", struct.pack("<f", data))[0]
+    buffer.push_word(word, 32)
 
 
 def _encode_builtin_double(buffer: _Buffer, type: DoubleType, data: Any) -> None:
-    v = struct.pack("d", data)
-    buffer.push_bytes(list(v))
+    word = struct.unpack("<Q", struct.pack("<d", data))[0]
+    buffer.push_word(word, 64)
 
 
 def _encode_str(buffer: _Buffer, fcp: FcpV2, type: StringType, data: Any) -> None:
@@ -196,11 +196,13 @@ def _decode_builtin_signed(buffer: _Buffer, type: SignedType) -> int:
 
 
 def _decode_builtin_float(buffer: _Buffer, type: FloatType) -> float:
-    return float(struct.unpack("f", bytearray(buffer.read_bytes(4)))[0])
+    word = buffer.read_word(32)
+    return float(struct.unpack("<f", struct.pack("<I", word))[0])
 
 
 def _decode_builtin_double(buffer: _Buffer, type: DoubleType) -> float:
-    return float(struct.unpack("d", bytearray(buffer.read_bytes(8)))[0])
+    word = buffer.read_word(64)
+    return float(struct.unpack("<d", struct.pack("<Q", word))[0])
 
 
 def _decode_str(buffer: _Buffer, type: StringType) -> str:
